@@ -4,7 +4,7 @@ from ..ir import E, AnalysisError, _is_bool
 from .. import q, gf2
 
 TITLE = 'header / data packet transmission framing'
-FLOOR = 90
+FLOOR = 100
 DECIDES = ('On RawPacketTransmitter, by evaluating the extracted guarded assignments (last assignment wins, slices '
            'overlaid, data path as GF(2)-affine forms so the comparison is for every data value and independent of how '
            'the words are written down) under every valuation of the control inputs of each state: (a) the state chain '
@@ -25,12 +25,22 @@ DECIDES = ('On RawPacketTransmitter, by evaluating the extracted guarded assignm
            'agreement: both link-layer receivers detect the transmitted HPSTART word, read the DW3 fields from the bit '
            'ranges written here, DataPacketReceiver detects the transmitted SDP word and its trailing-CRC reassembly '
            'applied to the transmitted last/CRC words yields the CRC32 for each mask; (f) PacketTransmitter wires the '
-           'stream and data_sink of its RawPacketTransmitter through unchanged; (g) a cycle-by-cycle walk of the extracted '
-           'FSM for payload lengths 0..N under several source.ready patterns produces exactly the specified symbol stream '
-           'and consumes exactly the offered words. ')
+           'stream and data_sink of its RawPacketTransmitter through unchanged; (g) composition across cycles, by an exhaustive '
+           'fixpoint (no runs on chosen stimuli): all reachable states of FSM state x every small control register (mask, '
+           'zero-length flag, latched header type / delayed) x "pipeline register holds the pending word" x abstract content '
+           'of the CRC16 unit (number of header words absorbed since clear) and of the CRC32 unit (clean / exactly the words '
+           'taken / other) x a reference monitor of the packet format, under all inputs of every cycle (source.ready, generate, '
+           'header type and delayed flag, data_sink mask class and last). In every reachable transition the word transferred '
+           'is the one the format requires next (HPSTART, DW0..DW3, SDP, EDB, payload word, last word with mask m, CRC word, '
+           'END word; data symbolic), nothing else is transferred, each word accepted from data_sink is forwarded exactly '
+           'once and in order (0/1 pending-word invariant), only payload words of the current packet are accepted, the CRC16 '
+           'holds exactly DW0..DW2 when DW3 is sent and the CRC32 exactly the accepted words when its bytes are sent, and '
+           'idle is re-entered only after the last word: hence for all payload lengths and all ready patterns. ')
 NOT_DECIDED = ('value-level CRC equations (C30), the receiver state machines beyond the agreement points (C37, C40), credit / '
                'retry scheduling of PacketTransmitter and the done strobe it relies on (C39), behaviour for byte-valid masks other than 1111/0111/0011/0001 '
-               'and for a data_sink that stops offering data in the middle of a packet.')
+               'and for a data_sink that stops offering data in the middle of a packet or changes the offered word before it is '
+               'accepted (environment assumption of the product: stream protocol); that a started packet eventually finishes '
+               'is decided only per state (every state leaves on source.ready), not as a liveness property.')
 
 SP, SC, SV, SR = 'self.source.payload', 'self.source.ctrl', 'self.source.valid', 'self.source.ready'
 DP, DV, DL, DR = 'self.data_sink.payload', 'self.data_sink.valid', 'self.data_sink.last', 'self.data_sink.ready'
@@ -690,14 +700,14 @@ def run(ctx):
     readers(ctx, vs, M, hp_word, sdp_word, last, crc, PW, PM, C, cands)
     # ---- (f) wiring in PacketTransmitter
     wiring(ctx)
-    # ---- (g) walk
+    # ---- (g) composition across cycles: exhaustive product with the reference monitor
     failed = any(not o.ok for o in ctx.obs)
     try:
-        walks(ctx, M, dict(idle=idle, LH=LH, PW=PW, PM=PM, c16=c16, c32=c32, names=names))
+        product(ctx, M, dict(idle=idle, LH=LH, PW=PW, PM=PM, c16=c16, c32=c32, names=names, lat=lat))
     except AnalysisError as ex:
         if not failed:
             raise
-        ctx.ob('C36.stream', CLS + '.stream[walk]', False, None, 'the stream walk could not be evaluated: %s' % ex)
+        ctx.ob('C36.product', CLS + '.product', False, None, 'the product with the reference monitor could not be built: %s' % ex)
 
 
 # ------------------------------------------------------------------------------------------ readers
@@ -820,7 +830,7 @@ def product(ctx, M, r):
                    if t != PW and t != LH and not t.startswith(LH + '.')})
     types = [DATA_TYPE, OTHER_TYPES[1]]
     if ctx.tier == 'thorough':
-        types = [t | hi for t in (DATA_TYPE,) + OTHER_TYPES for hi in (0, 0xFFFFFFE0)]
+        types = [DATA_TYPE] + list(OTHER_TYPES)          # (bits above the type field: see C36.chain dw3.advance)
     D, JV, C = vs.vec('$pending-word', 32), vs.vec('$stale', 32), vs.vec(c32 + '.crc', 32)
     SINK = vs.vec(DP, 32)
     dws = [vs.vec('%s.dw%d' % (LH, k), 32) for k in range(3)]
@@ -841,6 +851,8 @@ def product(ctx, M, r):
         seq = [(D[8 * j:8 * j + 8], 0) for j in range(k)] + data4(C) + const4(END, END, END, EPF)
         return seq + [(None, 0)] * (12 - len(seq))
     readsig = {}
+    control = set(creg) | {DR, SV, SC, LH, LDW0, LDEL, c16 + '.clear', c16 + '.advance_crc', c32 + '.clear'} | {
+        '%s.advance_%s' % (c32, x) for x in ('word', '3B', '2B', '1B')}
 
     def reads(s):
         """Signals read by the guards and right-hand sides that are live in FSM state s."""
@@ -850,7 +862,7 @@ def product(ctx, M, r):
                 for l in it.guard:
                     if isinstance(l.e, E):
                         out |= l.e.sigs()
-                if getattr(it, 'kind', '') == 'assign' and isinstance(it.rhs, E) and it.lhs.canon() != PW:
+                if getattr(it, 'kind', '') == 'assign' and isinstance(it.rhs, E) and set(it.lhs_sigs()) & control:
                     out |= it.rhs.sigs()
             readsig[s] = out
         return readsig[s]
@@ -918,6 +930,8 @@ def product(ctx, M, r):
             doms.append((x, [0, 1]))
         owes = ph in ('sdp', 'body') and isdata and not dly and not zl and not ended
         sink = [(15, 0)] + [(m, 1) for m in MASKS] if owes else [(v, l) for v in (0,) + MASKS for l in (0, 1)]
+        if not owes and DL not in rd and not any(M.in_state(a, s) for a in M.drivers(DR)):
+            sink = sorted({(v, 0) for v, l in sink})           # `last` is observed by nobody in this state
         keys = [k for k, _ in doms]
         for vals in itertools.product(*[d for _, d in doms]):
             for v, l in sink:
@@ -973,8 +987,6 @@ def product(ctx, M, r):
                     zl = int(env[DV] == 0)
                 nph = {'hp': 'dw0', 'dw0': 'dw1', 'dw1': 'dw2', 'dw2': 'dw3', 'dw3': 'sdp' if isdata else 'idle',
                        'sdp': 'edb' if dly else ('crc' if zl else 'body'), 'edb': 'idle'}[ph]
-                if ph == 'sdp' and nph == 'crc':
-                    pmask = 15
                 ph = nph
             elif ph == 'body' and pend and not plast:
                 bad = check_word('order.payload-word', o, data4(D))
@@ -985,12 +997,12 @@ def product(ctx, M, r):
                 pend, ph = 0, 'crc'
             elif ph == 'crc':
                 t = 'zero-length' if zl else 'mask=%s' % format(pmask, '04b')
-                bad = check_word('order.crc-word[%s]' % t, o, tail(0 if zl else popcount(pmask))[4:8])
+                bad = check_word('order.crc-word[%s]' % t, o, tail(0)[0:4] if zl else tail(popcount(pmask))[4:8])
                 crc_used = True
                 ph = 'end'
             elif ph == 'end':
                 t = 'zero-length' if zl else 'mask=%s' % format(pmask, '04b')
-                bad = check_word('order.end-word[%s]' % t, o, tail(0 if zl else popcount(pmask))[8:12])
+                bad = check_word('order.end-word[%s]' % t, o, tail(0)[4:8] if zl else tail(popcount(pmask))[8:12])
                 ph = 'idle'
             else:
                 bad = ('nothing-spurious', 'a word is driven valid and accepted while %s' % (
@@ -1037,8 +1049,10 @@ def product(ctx, M, r):
             any_ = 1
         if ph == 'idle':
             isdata = dly = zl = pend = pmask = plast = ended = any_ = 0
-        if ph not in ('body', 'crc', 'end'):
-            pmask = plast = 0 if not pend else pmask
+        if not pend:
+            plast = 0
+            if ph not in ('crc', 'end') or zl:
+                pmask = 0
         nxt = o['nxt'] if o['nxt'] is not None else s
         seen['packet-complete'] += 1
         if nxt == idle and s != idle and ph != 'idle' and bad is None:
@@ -1081,9 +1095,12 @@ def product(ctx, M, r):
             'crc16-content': 'when DW3 is sent the CRC16 unit must have absorbed exactly DW0, DW1, DW2 since it was cleared',
             'crc32-content': 'when CRC32 bytes are sent the CRC32 unit must have absorbed exactly the words taken from '
                              'data_sink, with their byte counts, since it was cleared'}
+    # exploration stops behind a violating transition, so what lies behind it is not reported a second time as "never
+    # reached"; without any violation every kind of word must have been reached (the fixpoint must not be vacuous)
     for cat in cats:
-        ctx.ob('C36.product', '%s.%s' % (CLS, cat), cat not in viol and seen[cat] > 0, fsm.loc,
+        ctx.ob('C36.product', '%s.%s' % (CLS, cat), cat not in viol and (seen[cat] > 0 or bool(viol)), fsm.loc,
                'for every reachable state and every input the %s transferred must be the one the packet format requires '
                'next: %s' % (cat.split('.', 1)[1], viol.get(cat, 'never reached in the product' if not seen[cat] else None)))
     for cat in other:
-        ctx.ob('C36.product', '%s.%s' % (CLS, cat), cat not in viol and seen[cat] > 0, fsm.loc, '%s: %s' % (what[cat], viol.get(cat)))
+        ctx.ob('C36.product', '%s.%s' % (CLS, cat), cat not in viol and (seen[cat] > 0 or bool(viol)), fsm.loc,
+               '%s: %s' % (what[cat], viol.get(cat)))
